@@ -750,6 +750,18 @@ class Evaluator:
                 return Const(val)
             except Exception:
                 pass
+        # sep.join([a, b, c]) with a constant separator and a literal list is the concatenation a + sep + b + sep + c
+        if isinstance(recv, Const) and isinstance(recv.v, (bytes, str)) and name == "join" and len(args) == 1 and not kwargs and starkw is None:
+            li = list_items(args[0])
+            if li is not None and not any(isinstance(x, App) and x.op == "star" for x in li):
+                if not li:
+                    return Const(type(recv.v)())
+                parts = []
+                for i_, x in enumerate(li):
+                    if i_ and recv.v:
+                        parts.append(recv)
+                    parts.append(x)
+                return mk_cat(parts, e) if len(parts) > 1 else parts[0]
         # compiled pattern: re.compile(p).match(s) is re.match(p, s)
         if isinstance(recv, App) and recv.op == "call:re.compile" and recv.args and not kwargs and starkw is None \
                 and ((name in ("match", "fullmatch", "search", "findall", "finditer", "split") and len(args) == 1)
@@ -1373,29 +1385,87 @@ class Evaluator:
             if self._static_iter(xa, depth) and self._static_iter(xb, depth):
                 return self._branch(g, s, st, fr, lambda a: self._for_over(s, xa, a, fr, depth + 1), lambda b: self._for_over(s, xb, b, fr, depth + 1))
         if items is not None and len(items) <= 64:
-            exits = []
-            cur = st
-            broke = False
-            for item in items:
-                if cur is None:
-                    break
-                self.bind_target(s.target, item, cur, fr)
-                cur, ex = self.exec_block(s.body, cur, fr)
-                for x in ex:
-                    if x.kind == "continue" and cur is None:
-                        cur = State(x.env, x.heap, x.effects, x.conds)
-                    elif x.kind == "break":
-                        broke = True
-                        cur = State(x.env, x.heap, x.effects, x.conds)
-                    elif x.kind in ("return", "raise"):
-                        exits.append(x)
-                if broke:
-                    break
-            if cur is not None and s.orelse and not broke:
-                cur, ex = self.exec_block(s.orelse, cur, fr)
-                exits.extend(ex)
-            return cur, exits
+            return self._unroll(s, items, 0, st, fr)
         return self._symbolic_loop(s, it, st, fr)
+
+    def _unroll(self, s, items, i, st, fr):
+        """A loop over statically known items, unrolled: (state after the loop or None, return / raise exits).  A `break` taken on some
+        paths only leaves the loop on those paths (skipping the else clause); the others go on with the next item."""
+        base = st.copy()
+        if i == len(items):
+            if s.orelse:
+                return self.exec_block(s.orelse, st, fr)
+            return st, []
+        self.bind_target(s.target, items[i], st, fr)
+        fall, ex = self.exec_block(s.body, st, fr)
+        exits = [x for x in ex if x.kind in ("return", "raise")]
+        nexts = ([fall] if fall is not None else []) + [State(x.env, x.heap, x.effects, x.conds) for x in ex if x.kind == "continue"]
+        afters = [State(x.env, x.heap, x.effects, x.conds) for x in ex if x.kind == "break"]
+        nxt = self._merge_states(nexts, base, s)
+        if nxt is not None:
+            a, e2 = self._unroll(s, items, i + 1, nxt, fr)
+            exits += e2
+            if a is not None:
+                afters.append(a)
+        return self._merge_states(afters, base, s), exits
+
+    def _merge_states(self, states, base, node):
+        """Join states that all descend from `base` (same prefix of path conditions and effects) into one, by nested conditionals
+        over the conditions in which their paths differ."""
+        if not states:
+            return None
+        if len(states) == 1:
+            return states[0]
+        n0 = len(base.conds)
+        i = n0
+        while all(len(x.conds) > i for x in states) and all(x.conds[i] == states[0].conds[i] for x in states):
+            i += 1
+        base_e = len(base.effects)
+        if not all(len(x.conds) > i for x in states):
+            # a path that carries its own conditions (a `continue` / `break` inside a handler or a nested test) next to states that
+            # stand for "all the other paths": the former is selected by the conjunction of its own conditions
+            spec = next((x for x in states if len(x.conds) > i), None)
+            if spec is None:
+                raise AnalysisError(f"paths of an unrolled loop cannot be joined (line {getattr(node, 'lineno', '?')})")
+            rest = [x for x in states if x is not spec]
+            cj = spec.conds[i:]
+            cond, neg = (cj[0] if len(cj) == 1 else App("and", tuple(cj))), None
+            x_ = spec
+            mid = base.copy()
+            mid.conds = list(states[0].conds[:i])
+            y_ = self._merge_states(rest, mid, node)
+        else:
+            g = states[0].conds[i]
+            neg = g.args[0] if isinstance(g, App) and g.op == "not" and len(g.args) == 1 else None
+            a = [x for x in states if x.conds[i] == g]
+            b = [x for x in states if x.conds[i] != g]
+            if not b:
+                raise AnalysisError(f"paths of an unrolled loop cannot be joined (line {getattr(node, 'lineno', '?')})")
+            mid = base.copy()
+            mid.conds = list(states[0].conds[:i])
+            ba, bb = mid.copy(), mid.copy()
+            ba.conds.append(g)
+            bb.conds.append(b[0].conds[i])
+            fa = self._merge_states(a, ba, node)
+            fb = self._merge_states(b, bb, node)
+            cond, x_, y_ = (g, fa, fb) if neg is None else (neg, fb, fa)
+        merged = State(conds=list(base.conds))
+        for k in set(x_.env) | set(y_.env):
+            u, v = x_.env.get(k), y_.env.get(k)
+            merged.env[k] = phi(cond, u if u is not None else Sym("undef:" + k), v if v is not None else Sym("undef:" + k))
+        for k in set(x_.heap) | set(y_.heap):
+            u, v = x_.heap.get(k), y_.heap.get(k)
+            dflt = App("attr:" + k[1], (k[0],))
+            merged.heap[k] = phi(cond, u if u is not None else dflt, v if v is not None else dflt)
+        # effects common to both (a shared prefix beyond the base) stay linear
+        ta, tb = x_.effects[base_e:], y_.effects[base_e:]
+        common = 0
+        while common < len(ta) and common < len(tb) and ta[common] is tb[common]:
+            common += 1
+        merged.effects = list(base.effects[:base_e]) + list(ta[:common])
+        if ta[common:] or tb[common:]:
+            merged.effects.append(App("eff:if", (cond, App("seq", ta[common:]), App("seq", tb[common:])), node))
+        return merged
 
     def s_While(self, s, st, fr):
         g = self.eval_expr(s.test, st, fr)
